@@ -367,6 +367,9 @@ def bounded(pr):
                 cols.append(l)
             yield 'random serial/occupancy/B/segment/element/charge columns', cols, []
             yield '--protonate-all', base, ['--protonate-all']
+            # the text ends right after its last atom record: no END / CONECT / MASTER after it and no line terminator
+            last = max(i for i, l in enumerate(base) if l[:6] in ('ATOM  ', 'HETATM') and l[17:20] != 'HOH')
+            yield 'input text ending right after the last atom record (no line terminator)', base[:last] + [base[last].rstrip('\r\n')], []
         # hydrogens present in the input have no effect (default options): amino-acid records without TER lines, hydrogens (moved off
         # the ideal positions) listed at the end of each residue - also after OXT - against the same records without hydrogens
         aa = [l for l in base if l[:6] == 'ATOM  ']
